@@ -300,17 +300,19 @@ func (d *dump) key() string {
 // ambiguous: either Y had the definition and H redefined it through inheritance
 // (slip then renames the cell's home), or H has it and Y kept a copy that no
 // use edge explains any more. abstract(false) reads it the first way,
-// abstract(true) the second way (Y's copy is then not judged); the oracle
-// reports only what is wrong under both readings.
+// abstract(true) the second way (Y then has no definition and Y's own slots,
+// returned in leftover, are not judged); the oracle reports only what is wrong
+// under both readings.
 // Function entries that slip's own lookup rule hides from X (not exported and
 // belonging elsewhere) are kept as hidden: only X::n reaches them.
 // aliased lists (package, kind, name) triples whose cell is a "definition" of
 // more than one package, is hidden, or is an orphaned copy of a cell its home
 // package no longer holds (all possible only after an earlier defect): the
 // oracle does not judge those slots (degraded mode, S9).
-func (d *dump) abstract(homeWins bool) (g *graph, aliased map[string]bool) {
+func (d *dump) abstract(homeWins bool) (g *graph, aliased, leftover map[string]bool) {
 	g = newGraph(d.cfg)
 	aliased = map[string]bool{}
+	leftover = map[string]bool{}
 	owners := map[string][]int{}
 	var ambiguous []string
 	for x, p := range d.p {
@@ -394,6 +396,12 @@ func (d *dump) abstract(homeWins bool) (g *graph, aliased map[string]bool) {
 					continue
 				}
 				e := ents[x]
+				if h := e.home; homeWins && 0 <= h && h != x && present[h] && ents[h].cell == e.cell {
+					// second reading: the home package has the definition, this
+					// is a left-over copy: x has no definition, its slots are not judged
+					leftover[fmt.Sprintf("%d%c%s", x, kind, n)] = true
+					continue
+				}
 				df := &def{val: e.val, exp: e.exp, cell: e.cell}
 				if kind == 'f' && !e.exp && e.home != x {
 					df.hidden = true
@@ -401,8 +409,6 @@ func (d *dump) abstract(homeWins bool) (g *graph, aliased map[string]bool) {
 				if h := e.home; 0 <= h && h != x {
 					if !present[h] || ents[h].cell != e.cell {
 						df.stale = true
-					} else if homeWins {
-						df.stale = true // the home package has the definition: this is a left-over copy
 					} else if reaches(d, x, h) {
 						// x holds, as a definition, a cell whose home package h
 						// still holds it, and x (indirectly) uses h: a copy that
